@@ -45,6 +45,7 @@ var corpusScenarios = []corpusScenario{
 	{"origin-id-whitespace-replay", false, corpusOriginWhitespaceReplay},
 	{"take-amount-base-prefix", false, corpusTakeBasePrefix},
 	{"criteria-timestamp-range", false, corpusCriteriaTimestampRange},
+	{"utf8-length-limits", false, corpusUTF8LengthLimits},
 }
 
 func init() { QuickCounts["corpus"] = len(corpusScenarios) }
@@ -633,5 +634,52 @@ func corpusCriteriaTimestampRange(c Cfg) *Result {
 	g.Do(a.MsgBasketPut(0, b4, chain.BasketCredit(denom, "1")), "put into the basket accepting 4294967295 years back")
 	g.Commit()
 	g.GenesisRT("after puts")
+	return g.Finish()
+}
+
+// ---- utf8-length-limits (C09) ---------------------------------------------------------------------------
+// Every length limit of a stored string is a limit in BYTES in the state validators.  Multi-byte text whose
+// character count is within the limit while its byte count is not must be rejected by every message that stores
+// it (otherwise the exported genesis fails the module's own validation); multi-byte text within the byte limit
+// must be accepted and survive the round trip.
+
+func corpusUTF8LengthLimits(c Cfg) *Result {
+	g := NewG(c, chain.Options{GenesisTime: T0})
+	a := g.App
+	const wide = "森" // 3 bytes
+	over := func(limit int) string { return strings.Repeat(wide, limit/3+1) } // chars <= limit < bytes
+	at := func(limit int) string { return strings.Repeat(wide, limit/3) + strings.Repeat("x", limit%3) }
+	bad := func(what string) string {
+		return expectNote(false, "C09", "over-byte-limit-accepted", what+" longer than its byte limit but within it counted in characters")
+	}
+	good := func(what string) string {
+		return expectNote(true, "C09", "within-byte-limit-rejected", what+" of multi-byte text exactly at its byte limit")
+	}
+	g.Begin(g.now.Add(6 * time.Second))
+	g.Do(a.MsgAddAllowedBridgeChain("polygon"), "gov: allow polygon")
+	cid, pid, denom := g.corpusWorld()
+	start, end := date(2022, 1, 1), date(2023, 1, 1)
+	otx := func() *base.OriginTx { return &base.OriginTx{Id: g.txHash(), Source: "polygon", Contract: ethAddr(7)} }
+	g.Do(a.MsgCreateClass(0, []int{0}, over(256), "C", g.classFeeCoin()), bad("class metadata"))
+	g.Do(a.MsgCreateClass(0, []int{0}, at(256), "C", g.classFeeCoin()), good("class metadata"))
+	g.Do(a.MsgCreateProject(0, cid, over(256), "US", "", nil), bad("project metadata"))
+	g.Do(a.MsgCreateProject(0, cid, "md", "US", over(32), nil), bad("project reference id"))
+	g.Do(a.MsgCreateProject(0, cid, at(256), "US", at(32), nil), good("project metadata and reference id"))
+	g.Do(a.MsgCreateBatch(0, pid, "", []*base.BatchIssuance{g.iss(1, "1", "")}, over(256), start, end, true, nil), bad("batch metadata"))
+	g.Do(a.MsgCreateBatch(0, pid, "", []*base.BatchIssuance{g.iss(1, "1", "")}, at(256), start, end, true, nil), good("batch metadata"))
+	g.Do(a.MsgBridgeReceive(0, cid, &base.MsgBridgeReceive_Project{ReferenceId: "BR-1", Jurisdiction: "KE", Metadata: over(256)}, 1, "5", start, end, "md", otx()), bad("bridged project metadata"))
+	g.Do(a.MsgBridgeReceive(0, cid, &base.MsgBridgeReceive_Project{ReferenceId: over(32), Jurisdiction: "KE", Metadata: "md"}, 1, "5", start, end, "md", otx()), bad("bridged project reference id"))
+	g.Do(a.MsgBridgeReceive(0, cid, &base.MsgBridgeReceive_Project{ReferenceId: "BR-1", Jurisdiction: "KE", Metadata: "md"}, 1, "5", start, end, over(256), otx()), bad("bridged batch metadata"))
+	g.Do(a.MsgBridgeReceive(0, cid, &base.MsgBridgeReceive_Project{ReferenceId: at(32), Jurisdiction: "KE", Metadata: at(256)}, 1, "5", start, end, at(256), otx()), good("bridged project and batch strings"))
+	g.Do(a.MsgUpdateClassMetadata(0, cid, over(256)), bad("new class metadata"))
+	g.Do(a.MsgUpdateClassMetadata(0, cid, at(256)), good("new class metadata"))
+	g.Do(a.MsgUpdateProjectMetadata(0, pid, over(256)), bad("new project metadata"))
+	g.Do(a.MsgUpdateProjectMetadata(0, pid, at(256)), good("new project metadata"))
+	g.Do(a.MsgUpdateBatchMetadata(0, denom, over(256)), bad("new batch metadata"))
+	g.Do(a.MsgUpdateBatchMetadata(0, denom, at(256)), good("new batch metadata"))
+	g.Do(a.MsgBasketCreate(2, "UTF", over(256), "C", []string{cid}, true, nil, g.basketFee(g.V())), bad("basket description"))
+	g.Do(a.MsgBasketCreate(2, "UTF", at(256), "C", []string{cid}, true, nil, g.basketFee(g.V())), good("basket description"))
+	g.Commit()
+	g.GenesisRT("after multi-byte strings at the byte limits")
 	return g.Finish()
 }
